@@ -28,7 +28,7 @@ def load_mutants():
     return ns["MUTANTS"]
 
 
-def run_check(pid, repo, tier, seed=1, timeout=1800):
+def run_check(pid, repo, tier, seed=1, timeout=600):
     env = dict(os.environ, VERIF_REPO=str(repo), VERIF_SEED=str(seed), PYTHONHASHSEED="0")
     t0 = time.time()
     # run from a temp copy of ROOT's vf? No: evidence/replay written by a mutant run must not pollute /verif
